@@ -8,6 +8,11 @@ def optNat? : Sexp → Option (Option Nat)
   | .atom "none" => some none
   | s => s.nat?.map some
 
+def link? : Sexp → Option (Option Link)
+  | .atom "none" => some none
+  | .list [.atom "link", j, e, t] => do some (some { target := (← j.nat?), isErr := (← e.bool?), tok := (← t.nat?) })
+  | _ => none
+
 def kind? : Sexp → Option Kind
   | .atom "user" => some .user
   | .atom "debug" => some .debug
@@ -43,7 +48,7 @@ def script? : Sexp → Option Script
   | _ => none
 
 def op? : Sexp → Option Op
-  | .list [.atom "add", p, sp] => do some (.add (← p.nat?) (← optNat? sp))
+  | .list [.atom "add", p, sp, lk] => do some (.add (← p.nat?) (← optNat? sp) (← link? lk))
   | .list [.atom "addTo", b, p] => do some (.addTo (← b.nat?) (← p.nat?))
   | .list [.atom "flush", b] => b.nat?.map .flush
   | .list [.atom "cancel", b, e] => do some (.cancel (← b.nat?) (← optNat? e))
@@ -84,18 +89,18 @@ def batch? : Sexp → Option Batch
   | _ => none
 
 def item? : Sexp → Option Item
-  | .list [.atom "I", b, p, sp, o] => do
-    some { batch := (← b.nat?), payload := (← p.nat?), spawn := (← optNat? sp), out := (← outc? o) }
+  | .list [.atom "I", b, p, sp, lk, o] => do
+    some { batch := (← b.nat?), payload := (← p.nat?), spawn := (← optNat? sp), link := (← link? lk), out := (← outc? o) }
   | _ => none
 
-def st? (k : Kind) : Sexp → Option St
+def st? (k : Kind) (keep : Bool) : Sexp → Option St
   | .list [.atom "st", a, .list (.atom "batches" :: bs), .list (.atom "items" :: is)] => do
-    some { kind := k, active := (← a.nat?), batches := (← bs.mapM batch?), items := (← is.mapM item?) }
+    some { kind := k, keep := keep, active := (← a.nat?), batches := (← bs.mapM batch?), items := (← is.mapM item?) }
   | _ => none
 
-def obs? (k : Kind) : Sexp → Option Obs
+def obs? (k : Kind) (keep : Bool) : Sexp → Option Obs
   | .list [.atom "obs", op, r, .list evs, st] => do
-    some { op := (← op? op), res := (← res? r), evs := (← evs.mapM ev?), post := (← st? k st) }
+    some { op := (← op? op), res := (← res? r), evs := (← evs.mapM ev?), post := (← st? k keep st) }
   | _ => none
 
 def diffObs (m i : Obs) : String :=
@@ -112,25 +117,73 @@ def firstDiff (a b : List Obs) (i : Nat := 0) : Option (Nat × String) :=
   | x :: _, [] => some (i, s!"model={x.op.name} impl=<missing>")
   | [], y :: _ => some (i, s!"model=<missing> impl={y.op.name}")
 
-/-- `hdr` = `<kind> (scripts (script ...) ...)`; `body` = the observation lines -/
+def judge (id : Nat) (k : Kind) (keep : Bool) (scripts : List Script) (body : List Sexp) : String :=
+  match body.mapM (obs? k keep) with
+  | some impl =>
+    let ops := impl.map (·.op)
+    let model := run scripts (init k keep) ops
+    let corr := firstDiff model impl
+    let spec := specClause k impl keep
+    let specm := specClause k model keep
+    let c := match corr with | none => "ok" | some _ => "diff"
+    let d := match corr with | none => "" | some (i, s) => ((s!"obs {i}: {s}".replace "\n" " ").replace "  " " ")
+    let f (s : String) := if s == "ok" then "ok" else "fail:" ++ s
+    s!"R {id} CORR={c} SPEC={f spec} SPECM={f specm} | {d}"
+  | none => s!"R {id} CORR=diff SPEC=ok SPECM=ok | unparsable observation"
+
+/-- `hdr` = `<kind> [(keep 0|1)] (scripts (script ...) ...)`; `body` = the observation lines -/
 def handle (id : Nat) (hdr : List Sexp) (body : List Sexp) : String :=
   match hdr with
   | [k, .list (.atom "scripts" :: ss)] =>
     match kind? k, ss.mapM script? with
-    | some k, some scripts =>
-      match body.mapM (obs? k) with
-      | some impl =>
-        let ops := impl.map (·.op)
-        let model := run scripts (init k) ops
-        let corr := firstDiff model impl
-        let spec := specClause k impl
-        let specm := specClause k model
-        let c := match corr with | none => "ok" | some _ => "diff"
-        let d := match corr with | none => "" | some (i, s) => ((s!"obs {i}: {s}".replace "\n" " ").replace "  " " ")
-        let f (s : String) := if s == "ok" then "ok" else "fail:" ++ s
-        s!"R {id} CORR={c} SPEC={f spec} SPECM={f specm} | {d}"
-      | none => s!"R {id} CORR=diff SPEC=ok SPECM=ok | unparsable observation"
+    | some k, some scripts => judge id k false scripts body
     | _, _ => s!"R {id} CORR=diff SPEC=ok SPECM=ok | unparsable case header"
+  | [k, .list [.atom "keep", kp], .list (.atom "scripts" :: ss)] =>
+    match kind? k, kp.bool?, ss.mapM script? with
+    | some k, some keep, some scripts => judge id k keep scripts body
+    | _, _, _ => s!"R {id} CORR=diff SPEC=ok SPECM=ok | unparsable case header"
   | _ => s!"R {id} CORR=diff SPEC=ok SPECM=ok | unparsable case header"
+
+/-! ### family `reenter` (mode `batchingx`): code that re-enters the batch it is called from
+
+The flush body cancels the batch it is flushing (`self.cancel(...)`), or an item's completion handler cancels the
+item's batch (while the body runs: the same; while `_computed` completes the leftover items: a no-op).  The model has
+no such statements (its proofs rest on the batch's outcome not changing while its body runs), so NO theorem speaks
+about these cases.  They are judged by a direct expectation: the observations of the implementation must be accepted
+by the observer `specClause` - the statement of C11, which does not refer to the model - and every re-entrant
+`cancel()` must have returned normally and, when it met a pending batch, must have decided that batch's outcome. -/
+
+structure XCancel where
+  b : Nat
+  e : Option Nat
+  wasPending : Bool
+  raised : Bool
+
+def xcancel? : Sexp → Option XCancel
+  | .list [.atom "x", .atom "cancel", b, e, wp, r] => do
+    some { b := (← b.nat?), e := (← optNat? e), wasPending := (← wp.bool?), raised := (← r.bool?) }
+  | _ => none
+
+def isObs : Sexp → Bool
+  | .list (.atom "obs" :: _) => true
+  | _ => false
+
+def handleX (id : Nat) (hdr : List Sexp) (body : List Sexp) : String :=
+  match hdr with
+  | [k, .list [.atom "keep", kp]] =>
+    match kind? k, kp.bool?, (body.filter isObs).mapM (fun o => obs? ((kind? k).getD .user) ((kp.bool?).getD false) o),
+          (body.filter (fun l => !isObs l)).mapM xcancel? with
+    | some k, some keep, some impl, some xs =>
+      let spec := specClause k impl keep
+      let final := match impl.getLast? with | some ob => ob.post | none => init k keep
+      let direct : Option String := xs.findSome? fun x =>
+        if x.raised then some "cancel-total@reenter"
+        else if x.wasPending && final.bout x.b != some (.err (errOfCancel x.e)) then some "cancel-outcome@reenter"
+        else none
+      let verdict := if spec != "ok" then spec else match direct with | some c => c | none => "ok"
+      let f (s : String) := if s == "ok" then "ok" else "fail:" ++ s
+      s!"R {id} CORR=ok SPEC={f verdict} SPECM=ok | "
+    | _, _, _, _ => s!"R {id} CORR=diff SPEC=ok SPECM=ok | unparsable reenter case"
+  | _ => s!"R {id} CORR=diff SPEC=ok SPECM=ok | unparsable reenter case header"
 
 end AsynqModel.Drv.Batching
